@@ -120,9 +120,12 @@ def run(tier, seed, replay=None):
     checked = differing = 0
     msgs = []
     try:
-        for fn in (flip_model, edit_model, api_model):
-            a, b, m = fn(r, tier, cases, lines)
-            checked += a; differing += b; msgs += m
+        import concurrent.futures
+        with concurrent.futures.ThreadPoolExecutor(max_workers=3) as ex:
+            futs = [ex.submit(fn, r, tier, cases, lines) for fn in (flip_model, edit_model, api_model)]
+            for f in futs:
+                a, b, m = f.result()
+                checked += a; differing += b; msgs += m
     except (vf.Broken, Exception) as e:
         r.is_broken("correspondence-run", repr(e))
     for m in msgs[:4]:
@@ -200,6 +203,8 @@ def edit_model(r, tier, cases, lines):
     ed = [(c, W.kvline(l)) for c, l in zip(cases, lines) if l.split()[1] == "mode=edit" and " edits=" in l]
     if not ed:
         return 0, 0, []
+    if tier == "quick":
+        ed = ed[:1]          # the implementation side runs every edit of every case; the model side one case
     variants, meta = [], []
     for c, m in ed:
         seg, oseg = bytes.fromhex(m["seg"]), bytes.fromhex(m["oseg"])
@@ -209,7 +214,7 @@ def edit_model(r, tier, cases, lines):
             name, res = item.split("=", 1)
             # quick: every commit-marker / whole-transaction edit, and a quarter of the frame edits
             key = name.split(":")[0]
-            if tier == "quick" and not (key in ("delc", "dupc", "appc", "xchgc", "swapcc", "apptx", "pretx") or n % 9 == 0):
+            if tier == "quick" and not (key in ("delc", "dupc", "xchgc", "apptx") or n % 13 == 0):
                 continue
             variants.append(apply_edit(name, recs, orecs))
             meta.append((c, name, res.split("|")))
@@ -219,9 +224,9 @@ def edit_model(r, tier, cases, lines):
     for i in range(len(variants)):
         terms.append(f"(summarize (recover_segment (tbl_hash tbl{i}) 1 seg{i}), summarize (recover_store (tbl_hash tbl{i}) seg{i}))")
     # one shared table: define it once
-    pre = W.PRE + "Definition tbl : list (N * list (bytes * N)) := Eval vm_compute in %s.\n" % tbl.term()
+    pre = W.PRE + "Definition tbl : list (N * list (bytes * N)) := %s.\n" % tbl.term()
     terms = [f"(summarize (recover_segment (tbl_hash tbl) 1 {W.hexbytes(v)}), summarize (recover_store (tbl_hash tbl) {W.hexbytes(v)}))" for v in variants]
-    vals = vf.coq_eval("c11e-e", pre, terms, shards=min(vf.NCPU, max(1, len(terms) // 4)), timeout=1700)
+    vals = vf.coq_eval("c11e-e", pre, terms, shards=min(vf.NCPU, max(1, len(terms) // 8)), timeout=1700)
     checked = differing = 0
     msgs = []
     for (c, name, res), v in zip(meta, vals):
@@ -241,6 +246,8 @@ def api_model(r, tier, cases, lines):
     ap = [(c, W.kvline(l)) for c, l in zip(cases, lines) if l.split()[1] == "mode=api" and " edits=" in l]
     if not ap:
         return 0, 0, []
+    if tier == "quick":
+        ap = ap[:1]
     segs = [bytes.fromhex(m["seg"]) for _, m in ap]
     tbl = W.build_table("c11a", segs)
     pairs = [(s, tbl) for s in segs]
